@@ -115,12 +115,21 @@ type Shape struct {
 	Hex  string `json:"hex,omitempty"`
 	// Unsorted keeps Opts in the given order instead of sorting by key.
 	Unsorted bool `json:"unsorted,omitempty"`
+	// Prefix overrides the store-type byte the signer prepends (0 = the
+	// prescribed one): a Byzantine publisher signing with the wrong prefix.
+	Prefix int `json:"prefix,omitempty"`
 }
 
 type OfflineShape struct {
 	Transient int    `json:"transient"`
 	Expires   uint64 `json:"expires"`
 	Seed      uint64 `json:"seed,omitempty"`
+	// Forge: 0 = the block is signed by the identity's own key (genuine);
+	// 1 = random offline signature, 2 = all-zero offline signature,
+	// 3 = signed by another identity's key (ForgeSeed), i.e. a block
+	// transplanted from that identity.
+	Forge     int    `json:"forge,omitempty"`
+	ForgeSeed uint64 `json:"forge_seed,omitempty"`
 }
 
 func (s *Script) Clone() *Script {
